@@ -275,6 +275,13 @@ func buildGrammar() {
 		k := k
 		add("lookalike", fmt.Sprintf("put(%q)", k), true, func() *proto.WriteRequest { return onePut(put(k, "plain")) })
 	}
+	// --- ranges with one bound inside the internal key space and the other outside it (the validator and the
+	// carve-out of applyDeleteRange must agree on who refuses / splits them)
+	for _, r := range [][2]string{{"__oxia/notifications/", "__oxia0/"}, {"__oxia/", "a/b"}, {"__oxia/session/", "b/"}, {"__oxia/a", "__oxib/"},
+		{"__oxi", "__oxia/notifications/0000000000000001"}, {"__oxia", "__oxia/z"}} {
+		r := r
+		add("internal-range", fmt.Sprintf("range[%q,%q)", r[0], r[1]), false, func() *proto.WriteRequest { return oneRange(r[0], r[1]) })
+	}
 	// --- strings that are not valid UTF-8 (the wire codec does not validate them; a log entry may be
 	// decoded by another decoder on another route)
 	add("encoding", `put("a\xff")`, false, func() *proto.WriteRequest { return onePut(put("a\xff", "v")) })
